@@ -231,6 +231,34 @@ class bptk():
         if(not "lock" in state.keys()):
             state["lock"] = False
         self.session_state = state
+        self._replay_session()
+
+    def _replay_session(self):
+        """Bring the scenarios of a restored session to the point the session had reached.
+
+        The session state only holds the logs, not the simulation itself: the session settings are applied
+        again as in begin_session and the logged steps are run again with the settings they were taken with,
+        so that the next step continues with the effect of all settings applied so far.
+        """
+        state = self.session_state
+        for _, manager in self.scenario_manager_factory.scenario_managers.items():
+            if manager.name in state["scenario_managers"]:
+                for scenario, scenario_object in manager.scenarios.items():
+                    if scenario in state["scenarios"]:
+                        if manager.name in state["settings"] and scenario in state["settings"][manager.name]:
+                            scenario_object.configure_settings(state["settings"][manager.name][scenario])
+                        self.reset_scenario_cache(scenario_manager=manager.name, scenario=scenario)
+
+        for step, settings in state["settings_log"].items():
+            for _, manager in self.scenario_manager_factory.scenario_managers.items():
+                if manager.name in state["scenario_managers"] and manager.type == "sd" and len(state["equations"]) > 0:
+                    SdRunner(self.scenario_manager_factory).run_scenario_step(
+                        step=float(step),
+                        scenarios=[scenario for scenario in manager.scenarios.keys() if scenario in state["scenarios"]],
+                        equations=state["equations"],
+                        scenario_manager=manager.name,
+                        settings=settings
+                    )
 
     def lock(self):
         if self.session_state is not None:
